@@ -14,7 +14,7 @@ from fvsym.rt import *  # noqa
 BOUNDS = {
     "quick": "tensors of depth 1 (box 3), depth 2 (box 2x2) for all 3 + 9 descriptors over {U,C,B} with every leaf value symbolic (each may be 0: every sparsity pattern, empty "
              "fibers, all-zero tensor), with and without an imposed larger shape; depth 3 (2x2x2) for selected descriptors; all-C descriptors and CoordinateList.coordToHandle "
-             "with symbolic coordinates and query; slice scan (setupSlice/nextInSlice/handleToCoord/handleToPayload) and getSize of every encoded fiber through a dict-backed cache stub",
+             "with symbolic coordinates and query; slice scan (setupSlice/nextInSlice/handleToCoord/handleToPayload) and getSize of every encoded fiber through a dict-backed cache stub; leaf fibers scanned in lockstep, masks of exactly 32 / 33 / 64 bits (imposed shapes), coordinate lists of 4-6 stored coordinates with symbolic coordinates and query",
     "thorough": "2x3 boxes for all 9 descriptors, all 27 descriptors on 2x2x2",
 }
 OUTSIDE = "formats H, T, R (not in the statement); cache hit/miss statistics; the debug prints (shadowed by a no-op: formatting would realise every symbol)"
